@@ -1,5 +1,6 @@
 import CobraModel.Lemmas.Formulations
 import Mathlib.Tactic.NormNum
+import CobraModel.Lemmas.AuxProb
 /-!
 # C19 — blocked-reaction and consistency analyses agree with the true flux ranges
 
@@ -70,5 +71,28 @@ theorem sparse_mode_term_irreversible (f r z : Rat) (hf : 0 ≤ f) (hr : 0 ≤ r
 def demo : LP := { n := 2, vb := [⟨some 0, some 5⟩, ⟨some 0, some 0⟩], rows := [([1, -1], ⟨some 0, some 0⟩)], obj := [0, 0] }
 example : (demo.withObj (unit 2 0)).checkOpt [0, 0] [1] = true := by decide +kernel
 example : (demo.withObj (negV (unit 2 0))).checkOpt [0, 0] [0] = true := by decide +kernel
+
+
+/-! ### the problem `_find_sparse_mode` solves (LP-7 of FASTCC)
+
+`AuxM.Net.fastcc n sub thr flip flipped`: the flux-balance problem, one auxiliary variable in `[0, thr]` per chosen reaction with the row
+`forward + reverse − auxiliary ≥ 0`, objective the sum of the auxiliaries, direction max.  Compared entry by entry with the raw GLPK problem,
+before and after `_flip_coefficients` (`harness/auxcorr.py`). -/
+open AuxM in
+/-- **LP-7 is sound for irreversible reactions**: at a feasible point the net fluxes are feasible for the model, and the auxiliary variable of a
+chosen reaction whose lower bound is not negative is at most its net flux (so a positive auxiliary means the reaction is not blocked).
+For a reversible reaction the row bounds it by `forward + reverse` only — this is where `fastcc` loses reversible reactions (known finding) -/
+theorem lp7_problem_sound (n : Net) (hp : n.Proper) (sub : List Nat) (thr : Rat) (x : V → Rat) (h : (n.fastcc sub thr [] false).Feasible x) :
+    n.Feasible (netOf x) ∧
+    ∀ i ∈ sub, i ∈ n.idx → (∃ a b, (n.rx i).lb = .fin a ∧ (n.rx i).ub = .fin b ∧ 0 ≤ a) → x (.auxv i) ≤ netOf x i :=
+  lp7_sound n hp sub thr x h
+
+open AuxM in
+/-- the optimum of LP-7 is at least `Σ min(thr, |v_i|)` for every feasible flux vector `v` -/
+theorem lp7_problem_optimum_ge (n : Net) (sub : List Nat) (thr : Rat) (hthr : 0 ≤ thr) (x : V → Rat) (h : (n.fastcc sub thr [] false).IsOpt x)
+    (v : Nat → Rat) (hv : n.Feasible v) : (sub.map (fun i => min thr |v i|)).sum ≤ (n.fastcc sub thr [] false).value x :=
+  lp7_optimum_ge n sub thr hthr x h v hv
+
+example : AuxM.demoNet.Feasible AuxM.demoV := (AuxM.demoNet_feasible _).2 (by simp only [AuxM.demoV]; norm_num)
 
 end C19
